@@ -442,19 +442,42 @@ def r4_construction(ctx, cls, file) -> None:
     maps = (P, f"{P} or {{}}", f"({P} or {{}})")
 
     def card(p):
-        """(mapping text, taken) of the injectivity test on the path, if any"""
+        """(mapping text, outcome "injective") of the injectivity test on the path, if any: the number of keys compared with the number
+        of distinct values -- len(set(M.values())), or the size of the inverse of M (keys that share a value collapse)"""
         for t, k in p.tests:
             for tm in ("len(E_m) == len(set(E_n.values()))", "len(set(E_n.values())) == len(E_m)"):
                 e = tmatch(t, T(tm))
-                if e is not None and e["E_m"].strip("()") == e["E_n"].strip("()"):
-                    return e["E_m"].strip("()"), k
+                if e is not None and _unp(e["E_m"]) == _unp(e["E_n"]):
+                    return _unp(e["E_m"]), k
+            # len(INV) <op> len(M) with INV the inverse of M: INV is never larger; equal sizes <=> injective
+            if isinstance(t, ast.Compare) and len(t.ops) == 1 and all(isinstance(x, ast.Call) and u(x.func) == "len" and len(x.args) == 1 for x in (t.left, t.comparators[0])):
+                a, b = t.left.args[0], t.comparators[0].args[0]
+                for inv, m_, flip in ((a, b, False), (b, a, True)):
+                    src = _inverted_from(inv)
+                    if src is not None and _unp(src) == _unp(u(m_)):
+                        op = type(t.ops[0])
+                        if flip:
+                            op = {ast.Lt: ast.Gt, ast.Gt: ast.Lt, ast.LtE: ast.GtE, ast.GtE: ast.LtE}.get(op, op)
+                        # over len(INV) <= len(M):   ==, >=  hold iff injective;   <, !=  hold iff not injective
+                        if op in (ast.Eq, ast.GtE):
+                            return _unp(u(m_)), k
+                        if op in (ast.Lt, ast.NotEq):
+                            return _unp(u(m_)), not k
         return None
+
+    def base(txt):
+        """the mapping a fresh-copy expression copies (dict(X) / {**X} / X.copy()), else the text itself"""
+        try:
+            c_ = _copied_from(ast.parse(txt, mode="eval").body)
+        except SyntaxError:
+            c_ = None
+        return _unp(c_) if c_ is not None else _unp(txt)
     raises = [p for p in ps if p.kind == "raise"]
     done = [p for p in ps if p.kind != "raise"]
     if not any("NotBijection" in p.value_text() for p in raises):
         ctx.fail("C18.R4", name, file, fn.lineno, "no `raise NotBijection` on any path: a non-injective initial mapping is accepted", fn)
         return
-    ok_guard = all("NotBijection" in p.value_text() and card(p) is not None and card(p)[1] is False and card(p)[0] in [m_.strip("()") for m_ in maps] for p in raises)
+    ok_guard = all("NotBijection" in p.value_text() and card(p) is not None and card(p)[1] is False and base(card(p)[0]) in [_unp(m_) for m_ in maps] for p in raises)
     ctx.check(ok_guard, "C18.R4", name + ":guard", file, fn.lineno,
               "the NotBijection raise is not controlled by a test comparing the number of keys with the number of distinct values", fn,
               detail="cardinality test controls raise NotBijection")
@@ -475,8 +498,9 @@ def r4_construction(ctx, cls, file) -> None:
             src_f = _copied_from(sf[0].value)
             inv = _inverted_from(sb[0].value)
             f_copy, f_inv = unold(sf[0].value), unold(sb[0].value)
-            ok_copy = ok_copy and src_f is not None and src_f.strip("()") == m_
-            ok_inv = ok_inv and inv is not None and inv.strip("()") in (m_, "self.fwd")
+            # the forward view is a private copy of the tested mapping (or the tested mapping is itself that private copy)
+            ok_copy = ok_copy and src_f is not None and (_unp(src_f) == m_ or (_unp(unold(sf[0].value)) == m_ and base(m_) != m_))
+            ok_inv = ok_inv and inv is not None and _unp(inv) in (m_, "self.fwd", base(m_))
         elif p.has_test(P, False) is not None or p.has_test(f"{P} is not None", False) is not None:
             # nothing given: both views start empty (an empty mapping is a bijection)
             empty = all(u(x.value) in ("{}", "dict()") for x in sf + sb)
@@ -527,6 +551,20 @@ def _is_cardinality_test(e: ast.AST) -> bool:
     return None not in cs and {cs[0][0], cs[1][0]} == {"keys", "values"}
 
 
+def _unp(t: str) -> str:
+    """t without redundant outer parentheses"""
+    t = t.strip()
+    while t.startswith("(") and t.endswith(")"):
+        depth = 0
+        for i, ch in enumerate(t):
+            depth += ch == "("
+            depth -= ch == ")"
+            if depth == 0 and i < len(t) - 1:
+                return t
+        t = t[1:-1].strip()
+    return t
+
+
 def _copied_from(e: ast.AST) -> str | None:
     if isinstance(e, ast.Call) and u(e.func) == "dict" and len(e.args) == 1:
         return u(e.args[0])
@@ -542,6 +580,11 @@ def _copied_from(e: ast.AST) -> str | None:
 
 
 def _inverted_from(e: ast.AST) -> str | None:
+    # {M[k]: k for k in M}
+    if isinstance(e, ast.DictComp) and len(e.generators) == 1 and not e.generators[0].ifs and isinstance(e.generators[0].target, ast.Name):
+        k_, m_ = e.generators[0].target.id, e.generators[0].iter
+        if isinstance(e.value, ast.Name) and e.value.id == k_ and isinstance(e.key, ast.Subscript) and u(e.key.value) == u(m_) and u(e.key.slice) == k_:
+            return u(m_)
     if isinstance(e, ast.DictComp) and len(e.generators) == 1 and not e.generators[0].ifs and u(e.generators[0].iter).endswith(".items()"):
         tg = e.generators[0].target
         if isinstance(tg, ast.Tuple) and len(tg.elts) == 2 and u(e.key) == u(tg.elts[1]) and u(e.value) == u(tg.elts[0]):
